@@ -313,6 +313,13 @@ func runBlock(r *simk.Run, f focus) *simk.Violation {
 				if c.Bool(0.2) {
 					sa.Decl = append(sa.Decl, SimDecl{Key: keysU[c.Intn(nKeys)], Perm: []state.Permissions{state.Read, state.All, state.None}[c.Intn(3)]})
 				}
+				if c.Bool(0.01 + f.bigCosts*0.4) {
+					// keys declared with the largest chunk counts the suffix can express: their units must be
+					// metered in full (sums beyond 16 bits), which usually makes the transaction too big
+					for k := 0; k <= c.Intn(3); k++ {
+						sa.Decl = append(sa.Decl, SimDecl{Key: simKey(byte('p'+k), []uint16{32768, 65535, 40000, 32767}[c.Intn(4)]), Perm: []state.Permissions{state.Read, state.All}[c.Intn(2)]})
+					}
+				}
 				if nAct <= 17 && c.Bool(f.txFaults*0.2) {
 					switch c.Intn(3) {
 					case 0:
@@ -589,6 +596,10 @@ func runBlock(r *simk.Run, f focus) *simk.Violation {
 				hdrNote += "timestamp-before-gap "
 			case 2:
 				blkTS = now + 1000 + 1 + int64(c.Intn(2))*5000
+				if c.Bool(0.3) {
+					// centuries ahead (differences that no longer fit a nanosecond duration)
+					blkTS = now + []int64{9_300_000_000_000_000, 12_000_000_000_000_000, 1 << 62, 3_600_000, 3_155_760_000_000}[c.Intn(5)]
+				}
 				hdrNote += "timestamp-beyond-future-bound "
 			case 3:
 				blkTS = now + 1000
@@ -626,6 +637,13 @@ func runBlock(r *simk.Run, f focus) *simk.Violation {
 			hdrNote += "txs-seen-under-earlier-rules "
 		}
 		normalOp := !c.Bool(0.15)
+		upgradeAt := int64(0)
+		var upgradeGaps [2]int64
+		if blkTS > 0 && blkTS < now && c.Bool(0.1+f.headerFaults*0.3) {
+			upgradeAt = blkTS + 1 + int64(c.Intn(int(now-blkTS)))
+			upgradeGaps = [][2]int64{{0, 0}, {1, 1}, {rules.MinBlockGap * 50, rules.MinEmptyBlockGap * 50}}[c.Intn(3)]
+			hdrNote += "rule-change-after-block-timestamp "
+		}
 		cfgA := chain.Config{TargetBuildDuration: time.Second, TransactionExecutionCores: 1 + c.Intn(8), StateFetchConcurrency: 1 + c.Intn(8), TargetTxsSize: 1 << 20}
 		sigA := 1 + c.Intn(6)
 		sample = map[string]any{"txs": gts, "header": hdrNote, "cores": cfgA.TransactionExecutionCores, "fetch": cfgA.StateFetchConcurrency, "sig_workers": sigA,
@@ -658,6 +676,13 @@ func runBlock(r *simk.Run, f focus) *simk.Violation {
 			defer w.Stop()
 			if memoKeys && env.BHx == nil {
 				env.BHx = NewMemoBH(env.handler())
+			}
+			if upgradeAt != 0 {
+				// a rule change scheduled between the block's timestamp and the verifier's clock: the block is
+				// judged by the rules in force at ITS timestamp
+				after := *rules
+				after.MinBlockGap, after.MinEmptyBlockGap = upgradeGaps[0], upgradeGaps[1]
+				env.RF = &TimedRF{At: upgradeAt, Before: rules, After: &after}
 			}
 			proc, err := env.Processor(ctx, w, cfg)
 			if err != nil {
